@@ -1,11 +1,155 @@
+/-
+Driver for C11.  A block is
+
+  begin <zones> <deny> <allow>      configuration (catalog in upsert order, ACL prefix lists)
+  req <u|t> <src> <hex> <body> <edns> <zl>   one raw request
+  …
+  end
+
+zones   `-` | zone`|`zone…      zone = <name token>`=`handlers      handlers = `-` | h`,`h…
+h       `mem/<0|1>`             in-memory zone, AXFR denied / allowed
+        `scr/<p|s|e>/<flow>/<flow|->/<update rcode>/<n|o|z|eRC>`   scripted handler
+flow    `S` | `Co` | `Cz` | `Ce<rc>` | `Bo` | `Bz` | `Be<rc>`
+prefix  `4:<addr>/<len>` | `6:<addr>/<len>`   (address as a decimal natural)
+src     `4:<addr>` | `6:<addr>`
+body    `ok` | `bad` | `na`     what the real decoder says about the rest of the message
+edns    `-` | <version>
+zl      `-` | <zone>.<handler>:<flow>,…   for every in-memory handler: what its own lookup code
+        returns for this question (zone content is C10's business; the driver puts the value into
+        the handler's `search` field before running the model)
+-/
 import HickoryVerif.Drv.Proto
+import HickoryVerif.Model.ServerGate
 
 namespace HickoryVerif.Drv.C11
-open HickoryVerif HickoryVerif.Drv
+open HickoryVerif HickoryVerif.Drv HickoryVerif.ServerGate
 
-abbrev State := Unit
-def init : State := ()
+abbrev State := Option Config
+def init : State := none
 
-def step (s : State) (_toks : List String) : State × String := (s, "bad-op")
+def parseFam : String → Option Family
+  | "4" => some .v4
+  | "6" => some .v6
+  | _ => none
+
+def parseIp (s : String) : Option Ip :=
+  match s.splitOn ":" with
+  | [f, a] => do pure { fam := ← parseFam f, addr := ← a.toNat? }
+  | _ => none
+
+def parsePrefix (s : String) : Option Prefix :=
+  match s.splitOn "/" with
+  | [ip, l] => do
+    let ip ← parseIp ip
+    pure { fam := ip.fam, addr := ip.addr, len := ← l.toNat? }
+  | _ => none
+
+def parsePrefixes (s : String) : Option (List Prefix) :=
+  if s == "-" then some [] else (s.splitOn ",").mapM parsePrefix
+
+def parseLRes (s : String) : Option LRes :=
+  match s.toList with
+  | ['o'] => some .ok
+  | ['z'] => some .zone
+  | 'e' :: rc => (String.ofList rc).toNat?.map .err
+  | _ => none
+
+def parseFlow (s : String) : Option Flow :=
+  match s.toList with
+  | ['S'] => some .skip
+  | 'C' :: r => (parseLRes (String.ofList r)).map .cont
+  | 'B' :: r => (parseLRes (String.ofList r)).map .brk
+  | _ => none
+
+def parseZType : String → Option ZType
+  | "p" => some .primary
+  | "s" => some .secondary
+  | "e" => some .external
+  | _ => none
+
+def parseHandler (s : String) : Option Handler :=
+  match s.splitOn "/" with
+  | ["mem", ax] =>
+    -- `InMemoryZoneHandler` (Primary): `search` → `Continue(zone content)`, default `consult`,
+    -- default `update` → `Err(NotImp)`, `zone_transfer` → `Refused` unless `AxfrPolicy::AllowAll`
+    some { ztype := .primary, search := .cont .zone, consult := none, update := RC_NOTIMP,
+           xfer := some (if ax == "1" then .ok else .err RC_REFUSED) }
+  | ["scr", zt, se, co, up, xf] => do
+    let zt ← parseZType zt
+    let se ← parseFlow se
+    let co ← if co == "-" then some none else (parseFlow co).map some
+    let up ← up.toNat?
+    let xf ← if xf == "n" then some none else (parseLRes xf).map some
+    pure { ztype := zt, search := se, consult := co, update := up, xfer := xf }
+  | _ => none
+
+def parseHandlers (s : String) : Option (List Handler) :=
+  if s == "-" then some [] else (s.splitOn ",").mapM parseHandler
+
+def parseZone (idx : Nat) (s : String) : Option Zone :=
+  match s.splitOn "=" with
+  | [n, hs] => do pure { idx := idx, origin := ← parseName n, handlers := ← parseHandlers hs }
+  | _ => none
+
+def parseZones (s : String) : Option Catalog :=
+  if s == "-" then some [] else do
+    let zs ← (s.splitOn "|").zipIdx.mapM (fun p => parseZone p.2 p.1)
+    pure (zs.foldl upsert [])
+
+def showCall : Call → String
+  | .search z h => s!"s{z}.{h}"
+  | .consult z h => s!"c{z}.{h}"
+  | .update z h => s!"u{z}.{h}"
+  | .xfer z h => s!"x{z}.{h}"
+
+def showReply (r : Reply) : String :=
+  let rc := match r.rcode with | some n => toString n | none => "*"
+  let log := if r.calls.isEmpty then "-" else ",".intercalate (r.calls.map showCall)
+  s!"reply qr={showBool r.qr} rc={rc} id={r.id} op={r.opcode} rd={showBool r.rd} cd={showBool r.cd} aa={showBool r.aa} ra={showBool r.ra} q={showBool r.echo} opt={showBool r.opt} log={log}"
+
+def showGate : Gate → String
+  | .drop => "drop"
+  | .reply r => showReply r
+  | .panic s => "panic " ++ s
+
+def parseBody (b e : String) : Option Body :=
+  match b with
+  | "ok" => if e == "-" then some (.ok none) else e.toNat?.map (fun v => .ok (some v))
+  | "bad" => some .bad
+  | "na" => some .bad
+  | _ => none
+
+def parseZl1 (s : String) : Option ((Nat × Nat) × Flow) :=
+  match s.splitOn ":" with
+  | [zh, f] =>
+    match zh.splitOn "." with
+    | [z, h] => do pure ((← z.toNat?, ← h.toNat?), ← parseFlow f)
+    | _ => none
+  | _ => none
+
+def parseZl (s : String) : Option (List ((Nat × Nat) × Flow)) :=
+  if s == "-" then some [] else (s.splitOn ",").mapM parseZl1
+
+/-- put the per-request lookup results of the in-memory handlers into their `search` fields -/
+def substZl (cat : Catalog) (zl : List ((Nat × Nat) × Flow)) : Catalog :=
+  cat.map fun z =>
+    { z with handlers := (indexed z.handlers).map fun (i, hd) =>
+        match zl.lookup (z.idx, i) with
+        | some f => { hd with search := f }
+        | none => hd }
+
+def step (s : State) (toks : List String) : State × String :=
+  match toks with
+  | ["begin", zones, deny, allow] =>
+    match parseZones zones, parsePrefixes deny, parsePrefixes allow with
+    | some cat, some d, some a => (some { acl := { deny := d, allow := a }, catalog := cat }, "ok")
+    | _, _, _ => (none, "bad-op")
+  | ["end"] => (none, "ok")
+  | ["req", _proto, src, bytes, body, edns, zl] =>
+    match s, parseIp src, parseHex bytes, parseBody body edns, parseZl zl with
+    | some cfg, some ip, some buf, some b, some zl =>
+      (s, showGate (handleRequest { cfg with catalog := substZl cfg.catalog zl } ip buf b))
+    | _, _, _, _, _ => (s, "bad-op")
+  | _ => (s, "bad-op")
 
 end HickoryVerif.Drv.C11
